@@ -4,8 +4,10 @@ import (
 	"bytes"
 	"context"
 	"fmt"
+	"maps"
 	"os"
 	"path/filepath"
+	"slices"
 	"strings"
 	"sync"
 
@@ -50,8 +52,9 @@ func (c *Compiler) getVariables(t *ast.Task, call *Call, evaluateShVars bool) (*
 	if err != nil {
 		return nil, err
 	}
-	for k, v := range specialVars {
-		result.Set(k, ast.Var{Value: v})
+	// Set the special variables in a fixed order
+	for _, k := range slices.Sorted(maps.Keys(specialVars)) {
+		result.Set(k, ast.Var{Value: specialVars[k]})
 	}
 
 	getRangeFunc := func(dir string) func(k string, v ast.Var) error {
